@@ -43,6 +43,8 @@ ALPHABET = ["send_anon", "send_anon2", "send_plain", "ready_ok", "ready_noflag",
 # lifecycle events, used by the Hypothesis-drawn words and by a small exhaustive family of their own
 LIFECYCLE = ["replace_overlay", "unload_plain", "load_second_anon"]
 EXTRA = ["ready_firsthop_ipv8"]
+# messages the anonymised overlay receives (through the tunnel) and reacts to on its own
+INCOMING = ["in_intro_request", "in_intro_response6", "in_puncture_request"]
 
 
 class Rig:
@@ -51,14 +53,16 @@ class Rig:
     plain overlay P}.
     """
 
-    def __init__(self, loop) -> None:
+    def __init__(self, loop, stack: str | None = None) -> None:
         from ipv8.community import Community, CommunitySettings
         from ipv8.messaging.anonymization.community import TunnelCommunity
         from ..nodes import Node
         from ..simnet import SimNet
         self.loop = loop
         self.net = SimNet(loop, auto=False)
-        self.node = Node(self.net, 0, tunnel_endpoint=True)
+        # stack: the TunnelEndpoint wraps a bare endpoint, or a DispatcherEndpoint over IPv4 (+ IPv6) interfaces
+        self.stack = stack
+        self.node = Node(self.net, 0, tunnel_endpoint=True, dispatcher=stack)
         self.tc = self.node.add(TunnelCommunity)
         self.tc.settings.peer_flags = {RELAY}
 
@@ -69,6 +73,9 @@ class Rig:
         self.A = mk("AnonA", b"A" * 20, True)
         self.A2 = mk("AnonB", b"B" * 20, True)
         self.P = mk("PlainP", b"P" * 20, False)
+        # a remote member of overlay A (plain node): the source of genuine signed messages that A receives
+        self.remote = Node(self.net, 1)
+        self.B = self.remote.add(type("AnonA", (Community,), {"community_id": b"A" * 20}))
         self.te = self.node.endpoint
         self.cfg_hops = 2
         self.te.set_tunnel_community(self.tc, self.cfg_hops)
@@ -149,6 +156,7 @@ async def run_word(rig: Rig, word: list, case: dict) -> tuple[bool, str]:
     te, tc = rig.te, rig.tc
     requested = {rig.A.get_prefix(): True, rig.A2.get_prefix(): True}
     anon_packets: list[bytes] = []
+    dest_of: dict[bytes, tuple] = {}      # packet offered by the check -> the destination it was offered with
     queued_model: list[bytes] = []
     nontrivial = False
     anon_sends = 0
@@ -207,6 +215,7 @@ async def run_word(rig: Rig, word: list, case: dict) -> tuple[bool, str]:
                 fail("A3", "plain:" + step.split(":")[-1], "a plain overlay's packet was tunnelled")
             return
         anon_packets.append(packet)
+        dest_of[packet] = dest
         for off in range(23, len(packet) - 15):
             windows[packet[off:off + 16]] = pfx
         anon_sends += 1
@@ -222,7 +231,8 @@ async def run_word(rig: Rig, word: list, case: dict) -> tuple[bool, str]:
             if cl[1][:22] in requested and not qualifying(cl[2]):
                 fail("A2", "carrier:" + step.split(":")[-1], f"an anonymised packet was sent over a circuit that is {cl[2]} "
                                               f"(configured hops {rig.cfg_hops}, IPv8 exit required)")
-            if cl[1][:22] in requested and cl[3] != dest:
+            # (packets the overlay sent on its own, in reaction to a received message, have their own destination)
+            if cl[1][:22] in requested and cl[1] in dest_of and cl[3] != dest_of[cl[1]]:
                 fail("A2", "carrier:" + step.split(":")[-1], "tunnelled packet is addressed to another destination")
         flushed = [cl[1] for cl in new_calls if cl[1] != packet]
         for f in flushed:
@@ -278,6 +288,30 @@ async def run_word(rig: Rig, word: list, case: dict) -> tuple[bool, str]:
         elif ev == "burst":
             for _ in range(101):
                 do_send(rig.A, step)
+        elif ev in INCOMING:
+            # a genuine signed message of a remote member reaches overlay A the way its traffic does (out of a circuit);
+            # whatever A sends in reaction is a packet of an overlay that asked for anonymity
+            from ipv8.messaging.interfaces.udp.endpoint import UDPv4Address, UDPv6Address
+            b, me = rig.B, UDPv4Address(*rig.node.address)
+            src = UDPv4Address(*rig.remote.address)
+            if rig.node.address6 is not None:
+                rig.A.my_peer.add_address(UDPv6Address(*rig.node.address6[:2]))
+            if ev == "in_intro_request":
+                packet = b.create_introduction_request(me, new_style=True)
+            elif ev == "in_puncture_request":
+                packet = b.create_puncture_request(UDPv4Address("1.0.0.7", 8007), UDPv4Address("1.0.0.7", 8007), 7,
+                                                   new_style=True)
+            else:
+                # the remote member was reached over IPv4 and advertises an IPv6 address of its own
+                saved = b.my_estimated_wan
+                b.my_estimated_wan = UDPv6Address("2001:db8::b", 8100)
+                try:
+                    packet = b.create_introduction_response(me, me, 7, new_style=True)
+                finally:
+                    b.my_estimated_wan = saved
+            te.notify_listeners((src, packet), from_tunnel=True)
+            nontrivial = True
+            check_raw(step)
         elif ev == "replace_overlay":
             # the application restarts the anonymised overlay: a new instance (same community id, same prefix, again
             # asking for anonymity) is loaded on the shared endpoint, then the old instance is unloaded
@@ -305,7 +339,13 @@ async def run_word(rig: Rig, word: list, case: dict) -> tuple[bool, str]:
 
 def _enum_shard(ctx: Ctx, shard: int, nshards: int, depth: int) -> None:
     with vloop.virtual_time() as loop:
-        rig = Rig(loop)
+        rigs: dict = {}
+
+        def rig_for(stack):
+            if stack not in rigs:
+                rigs[stack] = Rig(loop, stack=stack)
+            return rigs[stack]
+        mine = [None, "v4", "dual", "dual"][shard % 4]
         try:
             n = len(ALPHABET)
             k = 0
@@ -319,9 +359,9 @@ def _enum_shard(ctx: Ctx, shard: int, nshards: int, depth: int) -> None:
                     if not any(i < 3 or i == 11 for i in idxs) or nburst > 1 or (nburst and d > 3):
                         continue
                     word = [ALPHABET[i] for i in idxs]
-                    case = {"word": word}
+                    case = {"word": word, "stack": mine}
                     try:
-                        nt, cls = loop.run_until_complete(run_word(rig, word, case))
+                        nt, cls = loop.run_until_complete(run_word(rig_for(mine), word, case))
                         ctx.case(k | (1 << 61), nt, cls=cls, sample=case)
                     except Violation as v:
                         ctx.violation(v)
@@ -333,30 +373,50 @@ def _enum_shard(ctx: Ctx, shard: int, nshards: int, depth: int) -> None:
                     if k % nshards != shard or not any(i >= 5 for i in idxs) or not any(i < 3 for i in idxs):
                         continue
                     word = [small[i] for i in idxs]
-                    case = {"word": word}
+                    case = {"word": word, "stack": mine}
                     try:
-                        nt, cls = loop.run_until_complete(run_word(rig, word, case))
+                        nt, cls = loop.run_until_complete(run_word(rig_for(mine), word, case))
                         ctx.case(k | (1 << 61), True, cls="lifecycle:" + cls, sample=case)
                     except Violation as v:
                         ctx.violation(v)
+            # incoming family: every word of length <= 3 over sends, a circuit, the anonymity switch and the messages
+            # overlay A receives, with at least one received message - on every kind of endpoint stack
+            inc = ["send_anon", "send_plain", "ready_ok", "anon_toggle", *INCOMING]
+            for stack in (None, "v4", "dual"):
+                for d in range(1, 4):
+                    for idxs in itertools.product(range(len(inc)), repeat=d):
+                        k += 1
+                        if k % nshards != shard or not any(i >= 4 for i in idxs):
+                            continue
+                        word = [inc[i] for i in idxs]
+                        case = {"word": word, "stack": stack}
+                        try:
+                            nt, cls = loop.run_until_complete(run_word(rig_for(stack), word, case))
+                            ctx.case(k | (1 << 61), True, cls="incoming:%s:%s" % (stack, cls), sample=case)
+                        except Violation as v:
+                            ctx.violation(v)
         finally:
-            loop.run_until_complete(rig.node.unload())
+            for rig in rigs.values():
+                loop.run_until_complete(rig.node.unload())
+                loop.run_until_complete(rig.remote.unload())
     ctx.note("exhaustive_depth", depth)
 
 
 def _random_shard(ctx: Ctx, shard: int, nshards: int, n: int) -> None:
     from hypothesis import strategies as st
     with vloop.virtual_time() as loop:
-        rig = Rig(loop)
+        stack = [None, "dual", "v4", "dual"][shard % 4]
+        rig = Rig(loop, stack=stack)
         try:
             def body(word):
-                case = {"word": word}
+                case = {"word": word, "stack": stack}
                 nt, cls = loop.run_until_complete(run_word(rig, word, case))
                 ctx.case(case, nt, cls=cls)
-            hyp_run(ctx, "words", st.lists(st.sampled_from(ALPHABET + ALPHABET[:3] * 2 + LIFECYCLE + EXTRA), min_size=1,
-                                           max_size=60), body, n)
+            hyp_run(ctx, "words", st.lists(st.sampled_from(ALPHABET + ALPHABET[:3] * 2 + LIFECYCLE + EXTRA + INCOMING),
+                                           min_size=1, max_size=60), body, n)
         finally:
             loop.run_until_complete(rig.node.unload())
+            loop.run_until_complete(rig.remote.unload())
 
 
 def run(ctx: Ctx) -> None:
@@ -367,7 +427,7 @@ def run(ctx: Ctx) -> None:
 
 def replay(ctx: Ctx, case: dict) -> None:
     with vloop.virtual_time() as loop:
-        rig = Rig(loop)
+        rig = Rig(loop, stack=case.get("stack"))
         try:
             loop.run_until_complete(run_word(rig, case["word"], case))
         finally:
